@@ -463,6 +463,50 @@ def v14(rep):
         rep.ok("V14", "free-what-was-allocated", sample={"freeing calls": nfree})
 
 
+V15_SORTED_WRITERS = {
+    "dnfAndNew": "fills with zeros",
+    "dnfAndCopy": "copies a conjunction in order",
+    "dnfAndMerge": "the sorted merge of two conjunctions",
+    "dnfAndCancelNegation": "copies a sub-sequence in order",
+}
+
+
+def v15(rep):
+    """The literals of a conjunction are kept sorted by atom number: dnfAndMerge produces them that way and every test on
+    conjunctions (dnfAndImplies, dnfAtomLT merges, cancellation) walks two conjunctions in step relying on it; the order of the
+    *disjuncts* is the order of construction and means nothing.  A conjunction filled any other way -- the De Morgan image of a
+    disjunction of literals written down in disjunct order -- is a well-formed object that the tests misread: `not (x3 or x1)`
+    no longer implies `not x1`, and `not (x3 or x1) and x1` is not recognised as false.  In dnf.c an atom is stored into a
+    conjunction only by the four order-preserving routines, or at index 0 of a one-literal conjunction."""
+    f = common.extract("dnf.c", all_trees=True)
+    n = 0
+    for name, fn in sorted(f.funcs.items()):
+        if "body" not in fn or not fn.get("file", "").endswith("dnf.c"):
+            continue
+        for x in walk(fn["body"]):
+            if x["k"] != "BinaryOperator" or x["op"] != "=":
+                continue
+            l = strip(x["c"][0])
+            if l is None or l["k"] != "ArraySubscriptExpr" or (l.get("t") or "") != "DNF_Atom":
+                continue
+            b = strip(l["c"][0])
+            if b is None or b["k"] != "MemberExpr" or b["n"] != "argv":
+                continue
+            n += 1
+            key = "conjunction-filled-in-order:%s@%d" % (name, x["l"])
+            if name in V15_SORTED_WRITERS:
+                rep.ok("V15", key, sample={"why": V15_SORTED_WRITERS[name]})
+            elif const_value(l["c"][1]) == 0:
+                rep.ok("V15", key, sample={"why": "the only literal of a one-literal conjunction"})
+            else:
+                rep.violation("V15", "conjunction-filled-in-order:%s" % name, "dnf.c:%d (%s)" % (x["l"], name),
+                              "%s stores literals into a conjunction at a running index, outside the routines that keep a "
+                              "conjunction sorted by atom number: the result is in whatever order the source was (for a negated "
+                              "disjunction: the order the disjuncts were built in), and dnfImplies / dnfEqual / the contradiction "
+                              "test of dnfAnd, which walk sorted conjunctions in step, give wrong answers for it" % name)
+    rep.floor("stores of a literal into a conjunction", n, 8)
+
+
 def v6(rep):
     """B-tree node layout: a node with n keys has n+1 branches, key j sits between branch j and branch j+1.  When a rotation moves
     the *last* key of a node (index n-1) out of it, the branch that goes with it is the last branch (index n); when it moves the
@@ -773,6 +817,7 @@ def run(tier, only=None):
     v11(rep)
     v13(rep)
     v14(rep)
+    v15(rep)
     try:
         v5(rep)
     except AnalysisBroken as e:
